@@ -104,32 +104,107 @@ theorem kvDelete_get (s : State) (i : Nat) (k : String) : tget (kvDelete s i k).
 
 `txn s i [op]` is `Store.TxnRW(idx, [op])`; "reported" = the response carries no error. -/
 
-/-- node cas: committed ⇔ matched -/
-theorem nodeCas_reported_iff_matched (s : State) (i : Nat) (n a : String) (c : Nat) :
-    (txn s i [.nodeCas n a c]).committed = true ↔ SetMatch (tget s.nodes n) c := by
-  rw [← setCasFails_eq_false_iff]
-  cases h : setCasFails (tget s.nodes n) c <;>
-    simp [txn, txnLoop, tapply, nodeCas, h, Out.committed, Except.map]
+/-- node cas: committed ⇔ the supplied index matches the registration stored under the request's
+    NAME (whatever node ID the request carries) and `ensureNodeTxn` accepts the write -/
+theorem nodeCas_reported_iff_matched (s : State) (i : Nat) (n : String) (v : NodeVal) (c : Nat) :
+    (txn s i [.nodeCas n v c]).committed = true ↔
+      SetMatch (tget s.nodes n) c ∧ nodeRefused s n v = false := by
+  rw [← setCasFails_eq_false_iff, txn_single]
+  cases h : setCasFails (tget s.nodes n) c with
+  | true => simp [tapply, nodeCas, h, Out.committed, Except.map]
+  | false =>
+    cases hr : nodeRefused s n v with
+    | true => simp [tapply, nodeCas, h, nodeSet_refused s i n v hr, Out.committed, Except.map]
+    | false =>
+      obtain ⟨s', hs⟩ := nodeSet_ok s i n v hr
+      simp [tapply, nodeCas, h, hs, Out.committed, Except.map]
 
-theorem nodeCas_failed_unchanged (s : State) (i : Nat) (n a : String) (c : Nat)
-    (h : ¬ SetMatch (tget s.nodes n) c) : txn s i [.nodeCas n a c] = ⟨s, .txnErr [(0, .stale)]⟩ := by
+/-- an index that does not match the registration under the NAME is refused as stale and nothing
+    changes — for every node ID the request may carry (own, another registration's, unknown, none) -/
+theorem nodeCas_stale_refused (s : State) (i : Nat) (n : String) (v : NodeVal) (c : Nat)
+    (h : ¬ SetMatch (tget s.nodes n) c) : txn s i [.nodeCas n v c] = ⟨s, .txnErr [(0, .stale)]⟩ := by
   rw [← setCasFails_eq_true_iff] at h
-  simp [txn, txnLoop, tapply, nodeCas, h, Except.map]
+  simp [txn_single, tapply, nodeCas, h, Except.map]
 
-theorem nodeCas_applied_effect (s : State) (i : Nat) (n a : String) (c : Nat)
-    (h : SetMatch (tget s.nodes n) c) :
-    txn s i [.nodeCas n a c] = ⟨nodeSet s i n a, .txnOk (nodeRes (nodeSet s i n a) n)⟩ := by
+/-- create-only (index 0) on a name that is registered is refused, whatever the request's node ID
+    (the seeded regression C10-1 (a): comparison by ID let it overwrite the registration) -/
+theorem nodeCas_createOnly_on_present_refused (s : State) (i : Nat) (n : String) (v : NodeVal)
+    (e : Ver NodeVal) (h : tget s.nodes n = some e) :
+    txn s i [.nodeCas n v 0] = ⟨s, .txnErr [(0, .stale)]⟩ :=
+  nodeCas_stale_refused s i n v 0 (by simp [SetMatch, h])
+
+/-- a cas addressed at name `n` with another registration's node ID and that registration's index
+    is judged against `n`'s own index (C10-1 (b)) -/
+theorem nodeCas_foreign_id_judged_by_name (s : State) (i : Nat) (n : String) (v : NodeVal) (c : Nat)
+    (e : Ver NodeVal) (h : tget s.nodes n = some e) (hc : c ≠ e.modify) :
+    txn s i [.nodeCas n v c] = ⟨s, .txnErr [(0, .stale)]⟩ :=
+  nodeCas_stale_refused s i n v c (by simp [SetMatch, h, hc])
+
+/-- not committed (no match, or the name is defended) ⇒ nothing changes -/
+theorem nodeCas_failed_unchanged (s : State) (i : Nat) (n : String) (v : NodeVal) (c : Nat)
+    (h : ¬ (SetMatch (tget s.nodes n) c ∧ nodeRefused s n v = false)) :
+    (txn s i [.nodeCas n v c]).state = s ∧ (txn s i [.nodeCas n v c]).committed = false := by
+  have hc : ¬ (txn s i [.nodeCas n v c]).committed = true :=
+    fun hh => h ((nodeCas_reported_iff_matched s i n v c).mp hh)
+  refine ⟨?_, by simpa using hc⟩
+  rw [txn_single] at hc ⊢
+  cases ht : tapply s i (.nodeCas n v c) with
+  | ok x => simp [ht, Out.committed] at hc
+  | error e => rfl
+
+theorem nodeCas_applied_effect (s : State) (i : Nat) (n : String) (v : NodeVal) (c : Nat)
+    (h : SetMatch (tget s.nodes n) c) (hr : nodeRefused s n v = false) :
+    ∃ s', nodeSet s i n v = .ok s' ∧ txn s i [.nodeCas n v c] = ⟨s', .txnOk (nodeRes s' n v.id)⟩ := by
   rw [← setCasFails_eq_false_iff] at h
-  simp [txn, txnLoop, tapply, nodeCas, h, Except.map]
+  obtain ⟨s', hs⟩ := nodeSet_ok s i n v hr
+  exact ⟨s', hs, by simp [txn_single, tapply, nodeCas, h, hs, Except.map]⟩
 
-theorem nodeSet_get (s : State) (i : Nat) (n a : String) :
-    tget (nodeSet s i n a).nodes n =
-      match tget s.nodes n with
-      | some e => if e.val = a then some e else some ⟨a, e.create, i⟩
-      | none => some ⟨a, i, i⟩ := by
+/-- what an accepted node write leaves under the name: the requested content (ID and address)
+    stamped with `i` — or nothing at all changed (identical registration already stored) -/
+theorem nodeSet_get (s s' : State) (i : Nat) (n : String) (v : NodeVal) (h : nodeSet s i n v = .ok s') :
+    s' = s ∨ ∃ c, tget s'.nodes n = some ⟨v, c, i⟩ := by
+  have byName : ∀ t, nodeSetByName s i n v = t → t = s ∨ ∃ c, tget t.nodes n = some ⟨v, c, i⟩ := by
+    intro t ht
+    unfold nodeSetByName at ht
+    cases hn : tget s.nodes n with
+    | none => simp [hn] at ht; subst ht; right; exact ⟨i, by simp⟩
+    | some e =>
+      by_cases hv : e.val = v
+      · simp [hn, hv] at ht; left; exact ht.symm
+      · simp [hn, hv] at ht; subst ht; right; exact ⟨e.create, by simp⟩
+  unfold nodeSet at h
+  by_cases hid : v.id = ""
+  · simp [hid] at h; exact byName s' h
+  · simp only [ne_eq, hid, not_false_eq_true, if_true] at h
+    cases hb : nodeById s.nodes v.id with
+    | none =>
+      simp only [hb] at h
+      split at h
+      · simp at h
+      · simp at h; exact byName s' h
+    | some x =>
+      obtain ⟨oldName, e⟩ := x
+      simp only [hb] at h
+      by_cases hn : oldName = n
+      · by_cases hv : e.val = v
+        · simp [hn, hv] at h; left; exact h.symm
+        · simp [hn, hv] at h; subst h; right; exact ⟨e.create, by simp⟩
+      · simp only [hn, not_false_eq_true, if_true] at h
+        split at h
+        · simp at h
+        · simp at h; subst h; right; exact ⟨e.create, by simp⟩
+
+/-- without a node ID the write is by name only, exactly as for every other keyed entity -/
+theorem nodeSet_noid_get (s : State) (i : Nat) (n addr : String) :
+    ∃ s', nodeSet s i n ⟨"", addr⟩ = .ok s' ∧
+      tget s'.nodes n =
+        match tget s.nodes n with
+        | some e => if e.val = ⟨"", addr⟩ then some e else some ⟨⟨"", addr⟩, e.create, i⟩
+        | none => some ⟨⟨"", addr⟩, i, i⟩ := by
+  refine ⟨nodeSetByName s i n ⟨"", addr⟩, by simp [nodeSet], ?_⟩
   cases h : tget s.nodes n with
-  | none => simp [nodeSet, h]
-  | some e => by_cases hv : e.val = a <;> simp [nodeSet, h, hv]
+  | none => simp [nodeSetByName, h]
+  | some e => by_cases hv : e.val = ⟨"", addr⟩ <;> simp [nodeSetByName, h, hv]
 
 /-- node delete-cas: committed ⇔ the node exists with exactly that ModifyIndex -/
 theorem nodeDeleteCas_reported_iff_matched (s : State) (i : Nat) (n : String) (c : Nat) :
@@ -155,7 +230,7 @@ theorem nodeDeleteCas_applied_effect (s : State) (i : Nat) (n : String) (c : Nat
   | some e => simp [h] at hn; simp [txn, txnLoop, tapply, nodeDeleteCas, h, hn, Except.map]
 
 /-- the delete cascades: node, its services and its checks are gone -/
-theorem nodeDelete_effect (s : State) (n : String) (e : Ver String) (h : tget s.nodes n = some e) :
+theorem nodeDelete_effect (s : State) (n : String) (e : Ver NodeVal) (h : tget s.nodes n = some e) :
     tget (nodeDelete s n).nodes n = none ∧
     (∀ p ∈ (nodeDelete s n).svcs, p.1.1 ≠ n) ∧ (∀ p ∈ (nodeDelete s n).chks, p.1.1 ≠ n) := by
   simp [nodeDelete, h]
@@ -758,8 +833,22 @@ theorem composite_example :
   simp [caRootsAndConfig, rootsCasTxn, ha, imaxIndex, iget, caConfigMismatch, rootsWrite]
   simp [exRoots]
 
-example : ChkAdm (nodeSet {} 3 "n1" "10.0.0.1") "n1" ⟨"", "out"⟩ ∧ ¬ ChkAdm {} "n1" ⟨"", "out"⟩ := by
-  simp [ChkAdm, nodeSet, tget, tput, tdel]
+example : ChkAdm (nodeSetByName {} 3 "n1" ⟨"", "10.0.0.1"⟩) "n1" ⟨"", "out"⟩ ∧ ¬ ChkAdm {} "n1" ⟨"", "out"⟩ := by
+  simp [ChkAdm, nodeSetByName, tget, tput, tdel]
+
+/-- two registrations: web (no ID, index 5) and db (ID A, index 7) -/
+def exNodes : State := { nodes := [("db", ⟨⟨"A", "10.0.0.2"⟩, 7, 7⟩), ("web", ⟨⟨"", "10.0.0.1"⟩, 5, 5⟩)] }
+
+/-- C10-1 (a): create-only cas on `web` carrying an unknown ID is refused;
+    (b): cas on `web` with db's ID and db's index is refused; with web's own index it is a rename
+    of db onto web (db disappears, the row keeps db's CreateIndex) -/
+theorem nodeCas_id_examples :
+    txn exNodes 9 [.nodeCas "web" ⟨"X", "10.9.9.9"⟩ 0] = ⟨exNodes, .txnErr [(0, .stale)]⟩ ∧
+    txn exNodes 9 [.nodeCas "web" ⟨"A", "10.9.9.9"⟩ 7] = ⟨exNodes, .txnErr [(0, .stale)]⟩ ∧
+    (txn exNodes 9 [.nodeCas "web" ⟨"A", "10.9.9.9"⟩ 5]).state.nodes = [("web", ⟨⟨"A", "10.9.9.9"⟩, 7, 9⟩)] ∧
+    nodeRefused exNodes "web" ⟨"A", "x"⟩ = false ∧
+    nodeRefused { exNodes with chks := [(("web", "serfHealth"), ⟨⟨"", "ok"⟩, 6, 6⟩)] } "web" ⟨"A", "x"⟩ = true := by
+  decide
 
 example : FgMatch {} 0 0 ∧ FgAdm {} (some "gate") (some "d") ∧ ¬ FgAdm {} none (some "d") ∧ ¬ FgMatch {} 1 0 := by
   simp [FgMatch, FgAdm, modOf]
